@@ -64,9 +64,29 @@ class arg_reuse:
         return False
 
 
+SECOND_RUN = {'on': False, 'reset': None, 'done': 0}
+
+
+def second_run(on, reset=None):
+    """When on, run() executes the SAME Flow object twice and reports the second execution (sources become re-runnable
+    function steps; reset() clears harness-side logs between the two executions)."""
+    SECOND_RUN.update(on=bool(on), reset=reset, done=0)
+
+
 def source(name, fields, rows):
     """A source step with an explicit descriptor (no inference): load((descriptor, iterators))."""
     d = df()
+    if SECOND_RUN['on']:
+        rd = {'name': name, 'path': name + '.csv', 'profile': 'tabular-data-resource',
+              'schema': {'fields': copy.deepcopy(fields)}}
+        keep = copy.deepcopy(rows)
+
+        def rerunnable_source(package):
+            package.pkg.add_resource(copy.deepcopy(rd))
+            yield package.pkg
+            yield from package
+            yield (copy.deepcopy(r) for r in keep)
+        return rerunnable_source
     desc = {'resources': [{'name': name, 'path': name + '.csv', 'profile': 'tabular-data-resource',
                            'schema': {'fields': copy.deepcopy(fields)}}]}
     return d.load((desc, [iter(copy.deepcopy(rows))]), strip=False)
@@ -104,6 +124,14 @@ def run(steps, validate=False, via='results'):
     try:
         with boot.quiet() as cap:
             flow = d.Flow(*steps)
+            if SECOND_RUN['on'] and via == 'results':
+                try:
+                    flow.results(on_error=None)
+                except Exception:
+                    pass
+                SECOND_RUN['done'] += 1
+                if SECOND_RUN['reset']:
+                    SECOND_RUN['reset']()
             if via == 'results':
                 if validate:
                     results, dp, stats = flow.results()
